@@ -334,7 +334,22 @@ func mkSlices(args [][]int) []tensor.Slice {
 
 func opSlice(w *World, st *Step) execResult {
 	sl := decodeIntss(st.Op.A)
-	v, err := w.T(st.Op.H).Slice(mkSlices(sl)...)
+	src := w.T(st.Op.H)
+	var calcShape tensor.Shape
+	var calcErr error
+	if w.Cfg.Calc {
+		calcShape, calcErr = src.Shape().Clone().S(mkSlices(sl)...)
+	}
+	v, err := src.Slice(mkSlices(sl)...)
+	if w.Cfg.Calc && st.Res.St != "free" {
+		w.Stats.Compared++
+		switch {
+		case (calcErr == nil) != (err == nil):
+			return execResult{div: w.div(0, "calc-disagree", fmt.Sprintf("Shape.S error=%v but Slice error=%v on shape %v", calcErr, err, []int(src.Shape())))}
+		case err == nil && !eqInts([]int(calcShape), []int(v.Shape())) && !(calcShape.IsScalar() && v.Shape().IsScalar()):
+			return execResult{div: w.div(0, "calc-disagree", fmt.Sprintf("Shape.S predicts %v but Slice of shape %v produces %v%s", []int(calcShape), []int(src.Shape()), []int(v.Shape()), calcTag(sl, []int(src.Shape()), []int(calcShape), []int(v.Shape()))))}
+		}
+	}
 	if err != nil {
 		return execResult{err: err}
 	}
@@ -510,3 +525,49 @@ func sliceShapeTag(got, src []int, sl [][]int) string {
 	}
 	return ""
 }
+
+// calcTag names the recognised disagreements between Shape.S and Slice.
+func calcTag(sl [][]int, src, calc, got []int) string {
+	if prod(calc) == 1 && prod(got) == 1 {
+		return " [one-element: scalar vs length-one axes]"
+	}
+	for i, a := range sl {
+		if i > 0 && a[0] == 2 && a[3] > 1 {
+			e := a[2]
+			if e > src[i] {
+				e = src[i]
+			}
+			if (e-a[1])%a[3] != 0 {
+				return " [calculator rounds a stepped non-leading axis down]"
+			}
+		}
+	}
+	return ""
+}
+
+func isNoOp(err error) bool {
+	_, ok := err.(tensor.NoOpError)
+	return ok
+}
+
+// TCalc: Dense.T with an arbitrary axis list next to the shape-only calculator AP.T.
+func opTCalc(w *World, st *Step) execResult {
+	p := decodeInts(st.Op.A)
+	t := w.T(st.Op.H)
+	before := []int(t.Shape().Clone())
+	ap, _, calcErr := t.Info().T(append([]int{}, p...)...)
+	if isNoOp(calcErr) {
+		calcErr = nil
+	}
+	err := t.T(append([]int{}, p...)...)
+	w.Stats.Compared++
+	if (calcErr == nil) != (err == nil) {
+		return execResult{div: w.div(0, "calc-disagree", fmt.Sprintf("AP.T error=%v but Dense.T error=%v for axes %v on shape %v", calcErr, err, p, before))}
+	}
+	if err == nil && !eqInts([]int(ap.Shape()), []int(t.Shape())) {
+		return execResult{div: w.div(0, "calc-disagree", fmt.Sprintf("AP.T predicts %v but Dense.T(%v) of shape %v produces %v", []int(ap.Shape()), p, before, []int(t.Shape())))}
+	}
+	return execResult{err: err}
+}
+
+func init() { Register("TCalc", opTCalc) }
